@@ -60,6 +60,8 @@ def spec_mutators(cr):
         for f in cr.nontest_fns():
             if f.path in allm or not (f.impl_of and f.impl_of.get('self_ty') == SIC):
                 continue
+            if f.arg_count < 1 or not f.locals[1]['ty'].startswith('&mut'):
+                continue      # receives the specification by shared reference: cannot change it (it may copy it and change the copy)
             for bb, c, args, dest, tgt, line, exp in f.calls():
                 nm = c.get('resolved') or c.get('callee')
                 if nm in allm:
